@@ -138,8 +138,9 @@ def budgeted(fn, kwargs, jumps, rows=None):
 # ----------------------------------------------------------------------------------------------------------------
 # helpers
 # ----------------------------------------------------------------------------------------------------------------
-def table_from_digits(digits, k):
-    return numpy.array([[int(c) for c in digits[4 * v: 4 * v + 4]] for v in range(4 ** k)], dtype=int)
+def table_from_digits(digits, k, dtype=None):
+    return numpy.array([[int(c) for c in digits[4 * v: 4 * v + 4]] for v in range(4 ** k)],
+                       dtype=getattr(numpy, dtype) if dtype else int)
 
 
 def random_table_digits(rng, k):
@@ -330,7 +331,7 @@ def op_write(op, world, ctx):
     if design is None:
         return {"out": {"kind": "skipped"}, "res": None}
     bits, L, fast = op["bits"], len(op["bits"]), op["fast"]
-    table = table_from_digits(op["table"], design.k) if op.get("table") else None
+    table = table_from_digits(op["table"], design.k, op.get("table_dtype")) if op.get("table") else None
     kwargs = dict(binary_message=bits_array(bits), accessor=design.accessor(world.proxy), start_index=_start(op),
                   is_faster=fast, vt_length=op.get("vt", 0), shuffles=table)
     nlive = len(design.live)
@@ -443,8 +444,11 @@ def op_read(op, world, ctx):
 
 def read_decode(op, world, design, ctx):
     dsw, read, fast = world.dsw, op["read"], op.get("fast", False)
-    table = table_from_digits(op["table"], design.k) if op.get("table") else None
-    kwargs = dict(dna_sequence=read, bit_length=op["bit_length"], accessor=design.accessor(world.proxy),
+    table = table_from_digits(op["table"], design.k, op.get("table_dtype")) if op.get("table") else None
+    bit_length = op["bit_length"]
+    if op.get("np_bitlen") and 0 <= bit_length <= numpy.iinfo(getattr(numpy, op["np_bitlen"])).max:
+        bit_length = getattr(numpy, op["np_bitlen"])(bit_length)      # numpy integer scalars are integers
+    kwargs = dict(dna_sequence=read, bit_length=bit_length, accessor=design.accessor(world.proxy),
                   start_index=_start(op), is_faster=fast, vt_check=op.get("check"), shuffles=table)
     ctx.stats.lib_calls += 1
     out = budgeted(dsw.decode, kwargs, decode_budget(len(read), op["bit_length"]) * ctx.budget_scale)
